@@ -44,6 +44,11 @@ CLAIMED = {
  "C14": ("V: CRC-64-AVRO results are compared with Rabin!FP written in TLA+ from the specification (bit-serial definition and table form, equivalence "
          "model-checked); named digests are compared with hashlib (uninterpreted in the spec); unknown names must raise ValueError.",
          "TLA+ spec (Rabin) + TLC trace validation; hashlib as oracle for uninterpreted digests", "3/C14"),
+ "C16": ("V: boundary-heavy logical values (dates 1..9999, times, aware/naive datetimes with offsets around the epoch, UUIDs, decimals for bytes and "
+         "fixed with every edge incl. -0, too many digits, values not fitting) are written and read back; TLC compares the stored bytes with "
+         "AvroLogical!Prep (civil-date arithmetic, BigNat epoch microseconds, two's complement) and the value read with Unprep; values the schema "
+         "cannot represent must raise.",
+         "TLA+ spec (AvroLogical) + TLC trace validation", "3/C16"),
 }
 checks = []
 for p in props:
